@@ -393,6 +393,37 @@ def _lbrow_chunk(params, lo, hi):
     return r
 
 
+BOX3_A = (-4, -2, -1, 1, 2, 4)
+BOX3_C = (-2, 1, 4)
+
+
+def _box3_warm_chunk(params, lo, hi):
+    """two integer variables in the box 0..3 (rows x_j <= 3), two general rows with coefficients over {-4,-2,-1,1,2,4} and
+    right-hand sides over {-2, 2}, costs over {-2,1,4}, minimise; every integer point of the box as warm start (feasible or
+    not), heuristics on: warm starts with entries 2 and 3 meeting the rounding / swap local search.
+    index = ((a_code*4 + b_code)*9 + c_code)"""
+    r = new_result()
+    for idx in range(lo, hi):
+        c = [BOX3_C[d] for d in digits(idx % 9, 3, 2)]
+        k = idx // 9
+        bb = [(-2, 2)[d] for d in digits(k % 4, 2, 2)]
+        a = [BOX3_A[d] for d in digits(k // 4, 6, 4)]
+        A = [[1, 0], [0, 1], a[:2], a[2:]]
+        b = [3, 3] + bb
+        geo = Geometry(A, b, 2)
+        if not geo.verts:
+            continue
+        for ws in [None] + [[float(x), float(y)] for x in range(4) for y in range(4)]:
+            kw = {} if ws is None else {"warm_start": ws}
+            errs, label, nt = judge(geo, c, (0, 1), True, kw)
+            wit = {"c": c, "A": A, "b": b, "integers": [0, 1], "minimize": True, "config": kw}
+            _rec(r, errs, label, nt, wit, f"solve_milp(c={c}, A={A}, b={b}, integers=[0, 1], minimize=True, {kw})")
+        if len(r["violations"]) >= 40 or too_many_hangs():
+            r["capped"] = True
+            break
+    return r
+
+
 def _binary_chunk(params, lo, hi):
     """3 variables, rows x_j<=1 (j=0..2) + one general row a.x<=b0 (+ optionally a second); all integer.
     index = ((a_code*4 + b0)*64 + c_code)*2 + minimize ; second row from params"""
@@ -563,6 +594,7 @@ def jobs(tier, seed):
     else:
         kn = ("knap", (2, 3, 4), (7, 9, 11), (2, 3, 4))
         js.append(Job("int4_knapsack_row_234", 81 * 3 * 81 * 2, _int4_chunk, kn, describe="4 integers in 0..2, one knapsack row with weights over {2,3,4}, K in {7,9,11}, values over {2,3,4}, maximise, heuristics on/off (incumbents found while dominated and non-dominated nodes wait in the queue)"))
+    js.append(Job("int2_box3_warm_starts", 6**4 * 4 * 9, _box3_warm_chunk, None, describe="2 integer variables in 0..3, two general rows over {-4,-2,-1,1,2,4} with right-hand sides {-2,2}, costs over {-2,1,4}, minimise; no warm start and every integer point of the box as warm start"))
     js.append(Job("int2_lower_bound_rows", 4 * 9 * 7 * 2 * 16 * 2, _lbrow_chunk, None, describe="2 variables, each with a single-variable row x_j <= 1 or -x_j <= -1 plus x_j <= 3, one general row a.x <= b0 or a.x >= b0 with a over {1,2,3}, b0 in 0..6, costs over {1..4}; every integer subset, min/max, heuristics on/off"))
     js.append(Job("binary3_one_row", 64 * 4 * 64 * 2, _binary_chunk, None, describe="3 variables with explicit x_j<=1 rows + one general row; all-integer and mixed; rounding heuristic, LNS seeds, limits, warm starts"))
     js.append(Job("binary3_two_rows", 64 * 4 * 64 * 2, _binary_chunk, ((1, 1, 1), 2), describe="same with an extra cardinality row x0+x1+x2<=2"))
